@@ -223,6 +223,37 @@ try:
             if a.pid == 'C07' and rng.random() < 0.4:
                 run_file(p, label + ' preload', 6, preload=True)
             os.remove(p)
+    # irregular surveys with SEVERAL holes (adjacent ones too): every trace ordinal goes through the population mask
+    for hk in range(1 if quick else 3):
+        n_il_, n_xl_, ns_ = rng.choice([(6, 7, 9), (5, 6, 13), (7, 5, 6)])
+        present = np.ones((n_il_, n_xl_), dtype=bool)
+        cells = [(i, x) for i in range(n_il_) for x in range(n_xl_)]
+        i0 = rng.randrange(1, n_il_ - 1); x0 = rng.randrange(0, n_xl_ - 1)
+        present[i0, x0] = present[i0, x0 + 1] = False                       # two adjacent holes
+        for _ in range(rng.choice([2, 3])):
+            i1, x1 = rng.choice(cells)
+            present[i1, x1] = False
+        if not (present.any(axis=1).all() and present.any(axis=0).all()) or present[0, 0] is False:
+            present[:, :] = True; present[1, 2] = present[1, 3] = present[3, 4] = present[4, 0] = False
+        data_ = rnd_cube(rng, (n_il_, n_xl_, ns_))
+        sgy_ = os.path.join(d, f'irr{hk}.sgy'); p = os.path.join(d, f'irr{hk}.sgz')
+        mk_segy(sgy_, data_, [10 + 3 * k for k in range(n_il_)], [100 + 2 * k for k in range(n_xl_)], present=present)
+        bpv_ = rng.choice([8, 16])
+        try:
+            write_segy_sgz(sgy_, p, bpv=bpv_, header_detection='exhaustive')
+            os.remove(sgy_)
+            spx = SpecFile(p)
+            if spx.is2d or spx.tracecount == spx.n_il * spx.n_xl or (spx.n_il, spx.n_xl) != (n_il_, n_xl_):
+                R.notes.append('irregular survey with several holes was not written through the irregular route (known finding D27 of C08): skipped')
+            else:
+                nlive = int(present.sum())
+                extra = [('get_trace', (t,)) for t in range(nlive)] + [('get_trace', (t, 1, ns_ - 1)) for t in range(0, nlive, 3)]
+                R.count('irregular file with several holes')
+                run_file(p, f'irregular {n_il_}x{n_xl_}x{ns_} holes={int((~present).sum())} bpv={bpv_}', 6 if quick else 20, extra=extra)
+        finally:
+            for q in (sgy_, p):
+                if os.path.exists(q):
+                    os.remove(q)
     for bpv, bs in (LAYOUTS_2D if not quick else LAYOUTS_2D[:3]):
         bsr = szutils.define_blockshape_2d(bpv, bs)[1]
         for nt in ([21] if quick else [2, 5, 16, 17, 33]):
